@@ -354,7 +354,7 @@ def check_plan(ctx, plan):
     fired = False
     if f and f["kind"] in ("abort", "alloc"):
         # measuring pass: how many messages of the class / allocations does the call perform after this history?
-        m = ctx.execute("asan", [hops + fault_ops(plan, None)], timeout=300)
+        m = ctx.execute("asan", [hops + fault_ops(plan, None)], timeout=60)
         if crash_violation(rep, m, "C07 measuring pass"):
             return rep
         ctr = m.client(0)[-1].ctr() if m.client(0) else {}
@@ -374,7 +374,7 @@ def check_plan(ctx, plan):
     fops = fault_ops(plan, k) if f else []
     aops = after_ops(plan)
     ops = hops + [["transcript", "cpp", "s1", "GSLTC"]] + fops + aops
-    res = ctx.execute("asan", [ops], timeout=400)
+    res = ctx.execute("asan", [ops], timeout=60)
     if crash_violation(rep, res, "C07 history (fault %s)" % json.dumps(plan["fault"])):
         return rep
     R = res.client(0)
@@ -405,7 +405,7 @@ def check_plan(ctx, plan):
     # ---- reference -----------------------------------------------------------------------------
     rops = reference_ops(plan)
     rkey = hashlib.sha1(json.dumps(rops).encode("latin-1", "replace")).hexdigest()
-    ref = ctx.execute("asan", [rops], timeout=300)
+    ref = ctx.execute("asan", [rops], timeout=60)
     if crash_violation(rep, ref, "C07 reference (fresh instance)"):
         return rep
     RR = ref.client(0)
